@@ -154,6 +154,8 @@ class JSONPointer:
                     raise JSONPointerIndexError("index out of range") from None
                 # Handle non-standard index pointer.
                 if isinstance(key, str) and key.startswith("#"):
+                    if not RE_CANONICAL_INT.match(key[1:]):
+                        raise JSONPointerTypeError(f"{key}: {err}") from err
                     _index = int(key[1:])
                     if _index >= len(obj):
                         raise JSONPointerIndexError(
